@@ -801,6 +801,13 @@ pub fn alphabet(ty: VariantType, codec: Codec, large: bool) -> Vec<LV> {
             m.set_color(TerrainMaterials::Brick, Color3uint8::new(255, 0, 128));
             out.push(lv("grass+brick", m));
         }
+        VariantType::EnumItem => {
+            for ty in ["", "Material", "é"] {
+                for v in [0u32, 1, 256, u32::MAX] {
+                    out.push(lv(&format!("{}:{}", ty, v), rbx_types::EnumItem { ty: ty.to_owned(), value: v }));
+                }
+            }
+        }
         VariantType::Attributes => {
             out.push(lv("empty", Attributes::new()));
             out.push(lv("one-bool", Attributes::new().with("a", true)));
